@@ -179,7 +179,8 @@ def SD_est(
         freq = np.arange(0, Sy.shape[2]) * (1 / dt / (nxseg))  # Frequency vector
 
     elif method == "per":
-        noverlap = nxseg * pov
+        # whole samples: the product freed from its representation error (700 * 0.7 = 489.99999999999994), then truncated
+        noverlap = int(round(nxseg * pov, 9))
         Ndat = Yref.shape[1]
         n_ref = Yref.shape[0]
         n_all = Yall.shape[0]
